@@ -427,13 +427,24 @@ theorem foldl_add_eq_sum (l : List K) (a : K) : l.foldl (· + ·) a = a + l.sum 
   | nil => simp
   | cons b l ih => simp only [List.foldl_cons, List.sum_cons, ih, add_assoc]
 
+/-- the total probability of the dead transitions of a permuted (and renamed) row is the same -/
 theorem removedMass_eq {reach reach' : Array K} {r' r : List (Tr K)}
     (hp : r'.Perm (r.map (trMap π ρ)))
     (hd : ∀ t ∈ r, dead reach' (trMap π ρ t) = dead reach t) :
-    removedMass reach' r' = removedMass reach r := by
-  unfold removedMass
-  rw [foldl_add_eq_sum, foldl_add_eq_sum]
+    ((r'.filter (dead reach')).map (·.p)).sum = ((r.filter (dead reach)).map (·.p)).sum := by
   have := (filter_perm_map hp (dead reach') (dead reach) hd).map (·.p)
+  rw [this.sum_eq, List.map_map]
+  rfl
+
+/-- the surviving total of a permuted (and renamed) row is the same: addition in a field is
+commutative, so the order in which Python's `sum` adds does not matter -/
+theorem keptMass_eq {reach reach' : Array K} {r' r : List (Tr K)}
+    (hp : r'.Perm (r.map (trMap π ρ)))
+    (hd : ∀ t ∈ r, dead reach' (trMap π ρ t) = dead reach t) :
+    keptMass reach' r' = keptMass reach r := by
+  rw [keptMass_eq_sum, keptMass_eq_sum]
+  have := (filter_perm_map hp (fun t => !dead reach' t) (fun t => !dead reach t)
+    (fun t ht => by simp only [hd t ht])).map (·.p)
   rw [this.sum_eq, List.map_map]
   rfl
 
@@ -467,7 +478,11 @@ theorem condRow_perm (h : Presents π ρ g g') (hr : TgtOk g) {reach reach' : Ar
       rw [hlive.length_eq, List.length_map]
     have hl2 : (g'.tl.getD (π s) []).length = (g.tl.getD s []).length := by
       rw [hrow.length_eq, List.length_map]
-    rw [hl1, hl2, removedMass_eq hrow hd]
+    have hk : ((g'.tl.getD (π s) []).filter (fun t => !dead reach' t)).foldl
+          (fun acc t => acc + t.p) 0
+        = ((g.tl.getD s []).filter (fun t => !dead reach t)).foldl (fun acc t => acc + t.p) 0 :=
+      keptMass_eq hrow hd
+    rw [hl1, hl2, hk]
     split
     · exact hrow
     · refine (hlive.map _).trans ?_
